@@ -87,6 +87,14 @@ fn batch_perm_opt(multi: bool, n: usize, seed: u64, content: u32, prior: usize, 
     let mut rng = R::seed_from_u64(seed);
     macro_rules! drive {
         ($env:ident, $place:expr, $cancel:expr, $modify:expr, $sched:expr) => {{
+            if opt & 64 != 0 {
+                // a crossed book at the start of the step: crossing limit orders placed while trading is disabled (both assets), one
+                // step, then trading as the variation asks for it
+                $env.disable_trading();
+                for i in 0..4usize { $place(&mut $env, i, if i == 0 || i == 3 { Side::Bid } else { Side::Ask }, 2, if i == 0 || i == 3 { 500 } else { 100 }); }
+                $env.step(&mut rng0);
+                if trading { $env.enable_trading(); }
+            }
             for s in 0..prior {
                 for i in 0..prior_size { $place(&mut $env, i, Side::Bid, 1 + (i + s) as u32 % 3, 10 + (i as u32 % 5)); }
                 $env.step(&mut rng0);
@@ -351,14 +359,18 @@ fn main() {
                     "after 2 steps of another batch size", "same-step cancels after 2 steps of the same batch size",
                     "trading disabled", "trading disabled, after 1 step", "another assignment of instructions to assets", "every instruction on asset 1",
                     "step size 2", "start time 12345", "market orders", "market orders, trading disabled, step size 2",
-                    "cancellations of an order closed in an earlier step"];
+                    "cancellations of an order closed in an earlier step",
+                    "crossed book (orders placed while trading was disabled), trading enabled again", "crossed book, same-step cancels",
+                    "crossed book, trading still disabled, cancels of orders closed earlier", "crossed book, same-step modifies"];
                 let perms = vec![batch_perm(multi, n, seed, 0, 0, 0), batch_perm(multi, n, seed, 0, 0, 0), batch_perm(multi, n, seed, 1, 0, 0),
                     batch_perm(multi, n, seed, 2, 0, 0), batch_perm(multi, n, seed, 3, 0, 0), batch_perm(multi, n, seed, 0, 1, n),
                     batch_perm(multi, n, seed, 1, 3, n), batch_perm(multi, n, seed, 0, 2, n + 1), batch_perm(multi, n, seed, 2, 2, n),
                     batch_perm_opt(multi, n, seed, 0, 0, 0, 1), batch_perm_opt(multi, n, seed, 1, 1, n, 1), batch_perm_opt(multi, n, seed, 0, 0, 0, 2),
                     batch_perm_opt(multi, n, seed, 0, 0, 0, 4), batch_perm_opt(multi, n, seed, 0, 0, 0, 8), batch_perm_opt(multi, n, seed, 0, 0, 0, 16),
                     batch_perm_opt(multi, n, seed, 0, 0, 0, 32), batch_perm_opt(multi, n, seed, 0, 0, 0, 1 | 8 | 32),
-                    batch_perm(multi, n, seed, 4, 0, 0)];
+                    batch_perm(multi, n, seed, 4, 0, 0),
+                    batch_perm_opt(multi, n, seed, 0, 0, 0, 64), batch_perm_opt(multi, n, seed, 2, 0, 0, 64), batch_perm_opt(multi, n, seed, 4, 0, 0, 64 | 1),
+                    batch_perm_opt(multi, n, seed, 3, 1, n, 64)];
                 emit(json!({"kind": "det2", "env": if multi { "menv" } else { "env" }, "n": n, "seed": seed.to_string(), "labels": labels, "perms": perms}), &mut f);
             }
         }
